@@ -69,6 +69,19 @@ def run_case(case: dict) -> CaseResult:
         base = len(tr.writes)
     frames_written = 0
     flow = case.get("flow") or {}
+    if case.get("neighbour_fails"):
+        # another connection of the same kind lives in this process and one of its writes fails (the transport raises):
+        # that is its own business -- nothing of it may show up in what THIS connection writes
+        classes.add("neighbour_write_failed")
+        if case["mode"] == "plain":
+            h2, _c2, tr2 = fstub.make_plain()
+        else:
+            h2, _c2, tr2, _r2 = _noise_session(bytes(range(32, 64)))
+        tr2.fail_next = RuntimeError("unable to perform operation on <TCPTransport closed=True>") if case["neighbour_fails"] == "rt" else OSError(32, "Broken pipe")
+        try:
+            h2.write_packets([(33, b"\x0d\x01\x00\x00\x00\x10\x01"), (7, b"")], False)
+        except Exception:  # noqa: BLE001
+            pass
     # a long session before the generated calls: `prefix_frames` single-packet writes, each decoded / authenticated
     # under its own explicit nonce (byte boundaries of the 64-bit counter: 255->256, 65535->65536)
     npre = int(case.get("prefix_frames") or 0)
@@ -263,6 +276,8 @@ def _case(draw, tier):
         case["flow"] = {str(i): draw(st.lists(st.sampled_from(["pause", "resume", "turn"]), min_size=1, max_size=3)) for i in range(len(calls)) if draw(st.booleans())}
     if mode == "noise":
         case["key"] = draw(st.one_of(st.binary(min_size=32, max_size=32), st.sampled_from([bytes(32), b"\xff" * 32]))).hex()
+    if draw(st.integers(0, 9)) == 4:
+        case["neighbour_fails"] = draw(st.sampled_from(["rt", "os"]))
     if mode == "noise" and draw(st.integers(0, 14)) == 7 and len(calls) >= 2:
         k = draw(st.integers(0, len(calls) - 2))
         calls[k].insert(draw(st.integers(0, len(calls[k]))), [106, {"h": "", "pad": [0x43, draw(st.sampled_from([65516, 65536, 66000, 70000]))]}])
@@ -305,6 +320,12 @@ def enumerated(tier):
     for n in (254, 255, 256, 511, 513, 770) + ((65534, 65536, 131071) if tier == "thorough" else (65535,)):
         yield {"mode": "noise", "key": key, "prefix_frames": n, "calls": tail}
     yield {"mode": "plain", "prefix_frames": 300, "calls": tail}
+    for mode in ("plain", "noise"):
+        for how in ("rt", "os"):
+            c = {"mode": mode, "neighbour_fails": how, "calls": [[[7, {"h": ""}]], [[8, {"h": ""}], [26, {"h": "0d01000000"}]]]}
+            if mode == "noise":
+                c["key"] = key
+            yield c
     # an oversize payload is attempted (alone / as a later member of a batch), then ordinary traffic
     for big in (65516, 65535, 70000):
         yield {"mode": "noise", "key": key, "calls": [[[7, {"h": ""}]], [[106, {"h": "", "pad": [0x41, big]}]], [[7, {"h": ""}]], [[8, {"h": ""}], [7, {"h": ""}]]]}
